@@ -1431,6 +1431,8 @@ class AnsiString:
             self._s = obj._s
             self._fmts = obj._fmts
             return self
+        elif obj is self:
+            return self.copy()
         else:
             return obj
 
